@@ -91,10 +91,32 @@ def run(chk):
         chk.require("C02.R2", site, okf, f"{fn}: qtype, axis, group_size, scale and zero-point are stored as given", fn, "stored fields", "any input: dequantization uses other parameters than quantization")
     chk.floor("C02.R1", n, 2, "affine quantizer return paths (grouped / per-axis)")
     dequantizer(chk)
+    requested_config(chk, "C02.R1")
     optimizer_range(chk, "C02")
     from . import c04_layout
     c04_layout.group_ungroup(chk, "C02.R4")
     chk.assume("torch.round / clamp / to semantics; unpacked codes lie in [0, 2**bits - 1] (C04)")
+
+
+def requested_config(chk, rule):
+    """quantize_weight hands the caller's tensor, axis and group size unmodified to the affine optimizer and quantizer."""
+    repo = chk.repo
+    mi_q, qw = repo.func("quantize_weight")
+    t, qt, ax, gs, opt = positional_params(qw)[:5]
+    n = 0
+    for p in paths_of(qw):
+        if p.end[0] != "return" or path_facts(p).get(f"{qt}.bits == 8") is not False:
+            continue
+        n += 1
+        e = p.end[1]
+        site = f"{mi_q.rel}:{p.end[2]}"
+        a = [U(x) for x in e.args] if isinstance(e, ast.Call) else []
+        ok = U(e.func) == "AffineQuantizer.apply" and a[:4] == [t, qt, ax, gs] if isinstance(e, ast.Call) else False
+        optcall = e.args[4].value if ok and isinstance(e.args[4], ast.Subscript) else None
+        ok = ok and isinstance(optcall, ast.Call) and [U(x) for x in optcall.args] == [t, f"{qt}.bits", ax, gs]
+        chk.require(rule, site, bool(ok), f"quantize_weight (low-bit) passes the requested (tensor, axis, group_size) unmodified to the optimizer and the quantizer: `{U(e)[:110]}`", "quantize_weight", "requested group size / axis honoured",
+                    "a requested group size that the code rewrites (e.g. group_size equal to the last dimension of a rank-3 weight treated as per-axis): groups of different magnitude share one scale")
+    chk.floor(rule, n, 1, "low-bit quantize_weight paths")
 
 
 def dequantizer(chk):
@@ -156,6 +178,10 @@ def optimizer_range(chk, pid):
             chk.unknown(r6, site, f"{qn} does not return (scale, zeropoint)")
             continue
         sc, z = e.elts
+        sc, floors = scales.peel_floor(sc)
+        if floors:
+            chk.bad(r6, site, qn, "scale has a lower bound", f"{qn}: the affine scale is floored ({floors}): a group whose range is below (2**bits - 1) x floor gets a step larger than (hi - lo)/(2**bits - 1)",
+                    "half-precision weights with small-range groups (e.g. float16 weights around 1e-3 with an eps floor): errors of several half-steps")
         # scale = (rmax - rmin) / span
         if not (isinstance(sc, ast.BinOp) and isinstance(sc.op, ast.Div) and isinstance(sc.left, ast.BinOp) and isinstance(sc.left.op, ast.Sub)):
             chk.unknown(r6, site, f"{qn}: scale `{U(sc)[:70]}` is not (rmax - rmin) / span")
@@ -201,7 +227,7 @@ def optimizer_range(chk, pid):
         okz = zn[:3] == ["cast", "round:nearest", "div"] and U(zs[0][1]) == "torch.int8"
         if okz:
             num, den = zs[2][1], zs[2][2]
-            okz = U(num) == f"-{U(rmin)}" and U(den) == U(sc)
+            okz = U(num) == f"-{U(rmin)}" and (U(den) == U(sc) or U(scales.peel_floor(den)[0]) == U(sc))
         if okz and clamped is not None and not both:
             chk.bad(r5, site, qn, "zero-point clamped although the range excludes zero", f"{qn}: the zero-point is clamped to [`{U(clamped[1]) if clamped[1] is not None else None}`, `{U(clamped[2]) if clamped[2] is not None else None}`] but -rmin/scale lies outside the code range for every one-sided group (rmin > 0 or rmax < 0): the codes of such a group saturate",
                     "a group whose values all have the same sign, e.g. values in [0.5, 1.5]: error ~ |rmin| instead of half a step")
